@@ -784,3 +784,13 @@ def label_color_calls(rng):
         n = rng.randint(0, 9)
         labels = [rng.choice(["a", "b", "c", "dd", "e"]) for _ in range(n)]
         yield {"labels": seq([S(x) for x in labels], "list"), "min_count": rng.choice([NONE, I(1), I(2), I(3), I(0)])}
+
+
+@scope("seqlogos_calls")
+def seqlogos_calls(rng):
+    BUILD_NS.setdefault("_mpl_agg", __import__("matplotlib").use("Agg"))
+    for _ in range(40):
+        L = rng.randint(1, 5)
+        n = rng.randint(1, 6)
+        seqs = ["".join(rng.choice("ACDG") for _ in range(L)) for _ in range(n)]
+        yield {"seqs": seq([S(x) for x in seqs], "list"), "ax": NONE, "kwargs": {"t": "dict", "items": {}}}
